@@ -516,12 +516,13 @@ def _register_int_cells():
             from sktime.forecasting.theta import ThetaForecaster
             bad = malform_int(m, 2)
             holder = {}
+            des = ctx.rng.random() < 0.6   # (the period is validated whether or not it is used)
 
             def faulty():
-                holder["f"] = ThetaForecaster(sp=bad)
+                holder["f"] = ThetaForecaster(sp=bad, deseasonalize=des)
                 return holder["f"].fit(ctx.y_train).predict(list(ctx.steps))
-            return dict(control=lambda: ThetaForecaster(sp=2).fit(ctx.y_train).predict(list(ctx.steps)),
-                        faulty=faulty, fresh=lambda: holder.get("f"), sig={})
+            return dict(control=lambda: ThetaForecaster(sp=2, deseasonalize=des).fit(ctx.y_train).predict(list(ctx.steps)),
+                        faulty=faulty, fresh=lambda: holder.get("f"), sig={"deseasonalize": des})
         if m != "bool":
             cell("theta/sp_" + m, "malformed_window_step_sp", "entry_forecaster")(theta_sp)
 
